@@ -44,7 +44,7 @@ def main(argv):
                 os.environ.get('VERIF_TIME_SCALE', 1))
             if tier == 'thorough':
                 budget = min(budget, float(
-                    os.environ.get('VERIF_SLICE_CAP', '900')))
+                    os.environ.get('VERIF_SLICE_CAP', '600')))
             res = engine.explore(
                 fn, fixed=ob.get('fixed'), timeout=budget,
                 per_path_timeout=ob.get('per_path_timeout', 20),
